@@ -102,7 +102,9 @@ pub fn menu(h: &[Step], lim: &Limits) -> Vec<Step> {
             ops.push(Op::Send { from: c, to, batch: false });
         }
         // one batch shape per sender (contents/ECN/segment-size preservation)
-        ops.push(Op::Send { from: c, to: lim.dsts[0], batch: true });
+        if let Some(&to) = lim.dsts.first() {
+            ops.push(Op::Send { from: c, to, batch: true });
+        }
     }
     for &id in lim.max_conns.keys() {
         ops.push(Op::Disc { id, conn: None });
@@ -434,6 +436,28 @@ pub fn exec(history: &[Step]) -> ExecResult {
             }
             i = last_index + 1;
         }
+        // implementation-state fingerprint (registry shape as stored + sent-to relation), in harness indices:
+        // makes the de-duplication key at least as fine as the implementation state, so that a state the
+        // model considers equal but the implementation stores differently is still expanded
+        let (freg, fsent) = w.clients.verif_fingerprint();
+        let conn_index = |cid: &iroh_relay::server::ConnectionId| w.conns.iter().position(|c| &c.conn_id == cid).map(|i| i as i64).unwrap_or(-1);
+        // rename connections in order of first appearance so that isomorphic states coincide
+        let mut names: BTreeMap<i64, usize> = BTreeMap::new();
+        let mut fp = String::new();
+        for (e, conns) in &freg {
+            fp.push_str(&format!("{}:[", id_index(e).map(|i| i as i64).unwrap_or(-1)));
+            for c in conns {
+                let ci = conn_index(c);
+                let n = names.len();
+                let name = *names.entry(ci).or_insert(n);
+                let v1 = if ci >= 0 { m.conn_v1[ci as usize] } else { false };
+                fp.push_str(&format!("{name}{} ", if v1 { "v1" } else { "" }));
+            }
+            fp.push(']');
+        }
+        for (e, peers) in &fsent {
+            fp.push_str(&format!("{}>{:?};", id_index(e).map(|i| i as i64).unwrap_or(-1), peers.iter().map(|p| id_index(p).map(|i| i as i64).unwrap_or(-1)).collect::<Vec<_>>()));
+        }
         // ---- probe phase: compare the relay's registry with the model's ----
         let p = w.connect(3, false);
         settle().await;
@@ -448,6 +472,10 @@ pub fn exec(history: &[Step]) -> ExecResult {
                 let got_probe = w.drain(c).iter().any(|o| matches!(o, Obs::Datagrams { contents, src: Some(3), .. } if contents == &vec![0xee, id as u8]));
                 if got_probe != (want == Some(c)) {
                     viol.push(Violation { prop: "C06", what: format!("probe for id {id}: conn {c} received={got_probe}, model's active connection is {want:?}"), at_step: history.len() });
+                    if got_probe {
+                        // a datagram delivered on a connection that is not the destination's active one is a C04 violation too
+                        viol.push(Violation { prop: "C04", what: format!("probe datagram for id {id} was delivered on conn {c}, but the destination's active connection is {want:?}"), at_step: history.len() });
+                    }
                 }
             }
         }
@@ -470,7 +498,7 @@ pub fn exec(history: &[Step]) -> ExecResult {
             let pending: Vec<&Step> = history.iter().rev().take_while(|s| !s.settle).collect();
             format!("{key_at_group_start}##{pending:?}")
         } else {
-            model_key(&m)
+            format!("{}~~{fp}", model_key(&m))
         };
         // connections that the client closed but which still exist cannot occur at quiescence; ended ones have no future
         ExecResult { key, violations: viol, delivered, dropped, notices: n_notices }
@@ -551,7 +579,19 @@ pub fn drive(prop: &'static str) {
         }
     };
     type Step2 = vh_engine::Step<String>;
-    let (_states, _d) = bfs_histories::<Step, String>(&ctx, &menu_fn, &exec_fn, depth, 3_000_000);
+    let (_states, d1) = bfs_histories::<Step, String>(&ctx, &menu_fn, &exec_fn, depth, 3_000_000);
+    ctx.bound("mixed_pass_depth_completed", d1);
+    // second pass: registry-only alphabet (connect / close / disconnect of ONE endpoint id, no sends; the probe
+    // phase at the end of every execution observes the registry), more connections and deeper
+    let lim2 = Limits { max_unsettled: ctx.pick(0, 1), max_conns: BTreeMap::from([(0, ctx.pick(4, 5))]), with_err: false, with_v1: false, dsts: vec![] };
+    let depth2 = ctx.pick(7, 9);
+    ctx.bound("registry_pass_max_connections_of_one_id", lim2.max_conns[&0]);
+    ctx.bound("registry_pass_max_depth", depth2);
+    let menu2 = |h: &[Step]| menu(h, &lim2);
+    if ctx.violations() == 0 {
+        let (_s2, d2) = bfs_histories::<Step, String>(&ctx, &menu2, &exec_fn, depth2, 3_000_000);
+        ctx.bound("registry_pass_depth_completed", d2);
+    }
     ctx.finish();
 }
 
